@@ -162,8 +162,10 @@ def ref_longest(n_nodes, edges, sink_w):
 
 # ---- register-class kernels (C03, C05, C14) ------------------------------------------------
 
-X86_WIDE = ["rax", "rbx", "rcx", "rdx", "rsi", "rdi", "r8", "r9", "r10", "r11", "r12", "r13"]
-X86_NARROW = ["eax", "ebx", "ecx", "edx", "esi", "edi", "r8d", "r9d", "r10d", "r11d", "r12d", "r13d"]
+# families with irregular sub-register spellings (r8/r9: one-digit stem; sil/dil; cl) come first so that
+# the small equality patterns already use them
+X86_WIDE = ["rax", "r8", "rsi", "r9", "rcx", "r10", "rbx", "rdx", "rdi", "r11", "r12", "r13"]
+X86_NARROW = ["eax", "r8b", "sil", "r9w", "cl", "r10d", "bx", "edx", "dil", "r11b", "r12w", "r13d"]
 A64_WIDE = ["x1", "x2", "x3", "x4", "x5", "x6", "x7", "x8", "x9", "x10", "x11", "x12"]
 A64_NARROW = ["w1", "w2", "w3", "w4", "w5", "w6", "w7", "w8", "w9", "w10", "w11", "w12"]
 
